@@ -110,35 +110,72 @@ def sqrtrem2Sub : Nat → Nat → Nat → Nat → Nat × Nat
   | fuel + 1, qhl, rp0, sp0 =>
       if rp0 ≥ sp0 then sqrtrem2Sub fuel (qhl + 1) (wsub rp0 sp0) sp0 else (qhl, rp0)
 
+/-- sqrtrem.c:236-240, the `cc < 0` branch:
+    `cc += sp[0] != 0 ? mpn_add_1 (rp, rp, 1, sp[0]) : 1; cc += mpn_add_1 (rp, rp, 1, --sp[0]);` -/
+def sqrtrem2AddBack (sp0 rp0 : Nat) (cc : Int) : Nat × Nat × Int :=
+  let cy1 := if sp0 ≠ 0 then boolToNat (rp0 + sp0 ≥ B) else 1
+  let rp1 := if sp0 ≠ 0 then (rp0 + sp0) % B else rp0
+  let sp1 := wsub sp0 1
+  let cy2 := boolToNat (rp1 + sp1 ≥ B)
+  (sp1, (rp1 + sp1) % B, cc + (cy1 : Nat) + (cy2 : Nat))
+
+/-- sqrtrem.c:232-241: `cc -= mpn_sub_1 (rp, rp, 1, q * q) + qhl; if (cc < 0) { ... }`;
+    `cch = u >> Prec`, `qq = q * q`. -/
+def sqrtrem2Fix (sp0 cch rp0 qq qhl : Nat) : Nat × Nat × Int :=
+  let cc : Int := (cch : Int) - (boolToNat (rp0 < qq) + qhl : Nat)
+  let rp1 := wsub rp0 qq
+  if cc < 0 then sqrtrem2AddBack sp0 rp1 cc else (sp0, rp1, cc)
+
+/-- mpn_sqrtrem2 after the subtraction loop (sqrtrem.c:222-241); `sp0, rp0, qhl` as the loop left them. -/
+def sqrtrem2Tail (np0 sp0 rp0 qhl : Nat) : Nat × Nat × Int :=
+  let rp1 := (wshl rp0 32 + (np0 >>> 32)) % B               -- rp[0] = (rp[0] << Prec) + (np0 >> Prec)
+  let u0 := (2 * sp0) % B                                    -- u = 2 * sp[0]
+  let q0 := rp1 / u0                                         -- q = rp[0] / u
+  let u := wsub rp1 ((q0 * u0) % B)                          -- u = rp[0] - q * u
+  let q := (q0 + wshl (qhl &&& 1) 31) % B                    -- q += (qhl & 1) << (Prec - 1)
+  let qh := qhl >>> 1                                        -- qhl >>= 1
+  let sp1 := (wshl ((sp0 + qh) % B) 32 + q) % B              -- sp[0] = ((sp[0] + qhl) << Prec) + q
+  -- cc = u >> Prec; rp[0] = ((u << Prec) & MASK) + (np0 & (2^Prec - 1)); then subtract q * q and qhl
+  sqrtrem2Fix sp1 (u >>> 32) ((wshl u 32 + (np0 &&& (2 ^ 32 - 1))) % B) ((q * q) % B) qh
+
 /-- mpn_sqrtrem2 on `{np0, np1}`: `(sp0, rp0, cc)` with `np1·B + np0 = sp0² + cc·B + rp0`. -/
 def sqrtrem2 (np0 np1 : Nat) : Nat × Nat × Int :=
-  let (sp0, rp0) := sqrtrem1 np1
-  let (qhl, rp0) := sqrtrem2Sub 4 0 rp0 sp0
-  let rp0 := (wshl rp0 32 + (np0 >>> 32)) % B
-  let u := (2 * sp0) % B
-  let q := rp0 / u
-  let u := wsub rp0 ((q * u) % B)
-  let q := (q + wshl (qhl &&& 1) 31) % B
-  let qhl := qhl >>> 1
-  let sp0 := (wshl ((sp0 + qhl) % B) 32 + q) % B
-  let cc : Int := (u >>> 32 : Nat)
-  let rp0 := (wshl u 32 + (np0 &&& (2 ^ 32 - 1))) % B
-  let qq := (q * q) % B
-  -- cc -= mpn_sub_1 (rp, rp, 1, q * q) + qhl
-  let cc := cc - (boolToNat (rp0 < qq) + qhl : Nat)
-  let rp0 := wsub rp0 qq
-  if cc < 0 then
-    -- cc += sp[0] != 0 ? mpn_add_1 (rp, rp, 1, sp[0]) : 1
-    let cy1 := if sp0 ≠ 0 then boolToNat (rp0 + sp0 ≥ B) else 1
-    let rp0 := if sp0 ≠ 0 then (rp0 + sp0) % B else rp0
-    -- cc += mpn_add_1 (rp, rp, 1, --sp[0])
-    let sp0 := wsub sp0 1
-    let cy2 := boolToNat (rp0 + sp0 ≥ B)
-    let rp0 := (rp0 + sp0) % B
-    (sp0, rp0, cc + (cy1 : Nat) + (cy2 : Nat))
-  else (sp0, rp0, cc)
+  let sr := sqrtrem1 np1                                     -- mpn_sqrtrem1 (sp, rp, np + 1)
+  let ql := sqrtrem2Sub 4 0 sr.2 sr.1                        -- qhl = 0; while (rp[0] >= sp[0]) ...
+  sqrtrem2Tail np0 sr.1 ql.2 ql.1
 
 /-! ## mpn_dc_sqrtrem (sqrtrem.c:252-293) at value level -/
+
+/-- n = 1: `c = mpn_sqrtrem2 (sp, np, np)`. -/
+def dcBaseOut (s r : Nat) (cc : Int) : Nat × Nat :=
+  (s, (cc * (B : Int) + (r : Int)).toNat)                       -- remainder = cc·B + rp[0]
+
+def dcBase (N : Nat) : Nat × Nat :=
+  let res := sqrtrem2 (N % B) (N / B % B)
+  dcBaseOut res.1 res.2.1 res.2.2
+
+/-- the work after the recursive call on the high `2h` limbs, which returned `(s1, r1)`; `l = n / 2`. -/
+def dcCombine (l N : Nat) (hi : Nat × Nat) : Nat × Nat :=
+  let s1 := hi.1
+  let r1 := hi.2
+  -- if (q != 0) sub_n (...); q += mpn_intdivrem (sp, 0, np + l, n, sp + l, h):
+  -- (R'·B^l + a1) divided by S'; quotient q·B^l + {sp, l}, remainder {np + l, h}
+  let num := r1 * B ^ l + N / B ^ l % B ^ l
+  let qs := num / s1
+  let us := num % s1
+  -- c = sp[0] & 1; mpn_half (sp, l); sp[l-1] |= q << 63; q >>= 1
+  let c := qs % 2
+  let q := qs / 2
+  -- if (c != 0) c = mpn_add_n (np + l, np + l, sp + l, h)
+  let u := if c ≠ 0 then us + s1 else us
+  -- mpn_sqr (np + n, sp, l); b = q + mpn_sub_n (np, np, np + n, 2 * l); c -= ...
+  let r : Int := (u * B ^ l + N % B ^ l : Nat) - (q * q : Nat)
+  -- q = mpn_add_1 (sp + l, sp + l, h, q)
+  let s := s1 * B ^ l + q
+  if r < 0 then
+    -- c += mpn_addmul_1 (np, sp, n, 2) + 2 * q; c -= mpn_sub_1 (np, np, n, 1); q -= mpn_sub_1 (sp, sp, n, 1)
+    (s - 1, (r + 2 * (s : Int) - 1).toNat)
+  else (s, r.toNat)
 
 /-- `{np, 2n}` has value `N`, `B^(2n)/4 ≤ N < B^(2n)`.  Returns `(S, R)`: `{sp, n}` and the remainder
     including its carry limb (`R = c·B^n + {np, n}`), with `N = S² + R`, `R ≤ 2S`. -/
@@ -146,32 +183,10 @@ def dcSqrtremF : Nat → Nat → Nat → Nat × Nat
   | 0, _, _ => (0, 0)                   -- fuel exhausted (never: fuel = n and n halves)
   | fuel + 1, n, N =>
     if n = 0 then (0, 0)                -- outside the C domain (n ≥ 1)
-    else if n = 1 then                  -- c = mpn_sqrtrem2 (sp, np, np)
-      let (s, r, cc) := sqrtrem2 (N % B) (N / B % B)
-      (s, (cc * (B : Int) + (r : Int)).toNat)
+    else if n = 1 then dcBase N
     else
-      let l := n / 2
-      let h := n - l
-      -- q = mpn_dc_sqrtrem (sp + l, np + 2 * l, h)
-      let (s1, r1) := dcSqrtremF fuel h (N / B ^ (2 * l))
-      -- if (q != 0) sub_n (...); q += mpn_intdivrem (sp, 0, np + l, n, sp + l, h):
-      -- (R'·B^l + a1) divided by S'; quotient q·B^l + {sp, l}, remainder {np + l, h}
-      let num := r1 * B ^ l + N / B ^ l % B ^ l
-      let qs := num / s1
-      let us := num % s1
-      -- c = sp[0] & 1; mpn_half (sp, l); sp[l-1] |= q << 63; q >>= 1
-      let c := qs % 2
-      let q := qs / 2
-      -- if (c != 0) c = mpn_add_n (np + l, np + l, sp + l, h)
-      let u := if c ≠ 0 then us + s1 else us
-      -- mpn_sqr (np + n, sp, l); b = q + mpn_sub_n (np, np, np + n, 2 * l); c -= ...
-      let r : Int := (u * B ^ l + N % B ^ l : Nat) - (q * q : Nat)
-      -- q = mpn_add_1 (sp + l, sp + l, h, q)
-      let s := s1 * B ^ l + q
-      if r < 0 then
-        -- c += mpn_addmul_1 (np, sp, n, 2) + 2 * q; c -= mpn_sub_1 (np, np, n, 1); q -= mpn_sub_1 (sp, sp, n, 1)
-        (s - 1, (r + 2 * (s : Int) - 1).toNat)
-      else (s, r.toNat)
+      -- l = n / 2; h = n - l; q = mpn_dc_sqrtrem (sp + l, np + 2 * l, h)
+      dcCombine (n / 2) N (dcSqrtremF fuel (n - n / 2) (N / B ^ (2 * (n / 2))))
 
 def dcSqrtrem (n N : Nat) : Nat × Nat := dcSqrtremF n n N
 
